@@ -288,6 +288,8 @@ def check_C02(rep, fl):
     # ... and clear() returns only after the processor has done all of it (a lookup that starts after clear()
     # returned must not find an older value)
     props_life.check_clear(rep, fl)
+    # "when a client lets the cache quiesce between its operations": wait() says Ok only behind its barrier
+    props_store.keep_sites(rep, fl, props_life.check_wait_fn, ("Ok only behind the barrier", "always enqueues", "wait after send"))
 
 
 # ----------------------------------------------------------------------------------------
@@ -317,3 +319,6 @@ def check_C04(rep, fl):
     props_store.check_lookup_guards(rep, fl)
     props_store.check_time(rep, fl)
     props_store.check_em_insert(rep, fl)
+    # "until it is removed": a remove always tells the policy too - the Delete marker is sent with a blocking send (a
+    # marker lost to a full buffer leaves the key charged, and a later insert of it is refused as an update)
+    props_life.check_remove_pair(rep, fl)
